@@ -166,6 +166,23 @@ func (w *world) video(key bool, ts uint32) (*rtp.Packet, string) {
 	body := append(w.nalHdr(key), []byte(id+strings.Repeat("v", 40))...)
 	return w.pkt(rtp.ChannelVideo, 96, ts, body), id
 }
+// videoFU: the same kind of frame as a fragmentation unit in two packets (FU-A / FU)
+func (w *world) videoFU(key bool, ts uint32) ([]*rtp.Packet, string) {
+	id := w.id('V')
+	hdr := w.nalHdr(key)
+	body := []byte(id + strings.Repeat("v", 40))
+	a, b := body[:len(body)/2], body[len(body)/2:]
+	var p1, p2 []byte
+	if w.codec == "h265" {
+		typ := hdr[0] >> 1
+		p1 = append([]byte{49 << 1, 1, 0x80 | typ}, a...)
+		p2 = append([]byte{49 << 1, 1, 0x40 | typ}, b...)
+	} else {
+		p1 = append([]byte{hdr[0]&0x60 | 28, 0x80 | hdr[0]&0x1f}, a...)
+		p2 = append([]byte{hdr[0]&0x60 | 28, 0x40 | hdr[0]&0x1f}, b...)
+	}
+	return []*rtp.Packet{w.pkt(rtp.ChannelVideo, 96, ts, p1), w.pkt(rtp.ChannelVideo, 96, ts, p2)}, id
+}
 func (w *world) audio(ts uint32) (*rtp.Packet, string) {
 	id := w.id('A')
 	au := []byte(id + strings.Repeat("a", 30))
@@ -235,6 +252,14 @@ func (w *world) faults(c fcase, ts uint32, rng *rand.Rand) []*rtp.Packet {
 		case "fua-truncate-every", "fu-truncate-every":
 			every(fuS)
 			every(fuE)
+		case "fua-unfinished", "fu-unfinished":
+			// a unit that is begun and never finished: a good start fragment, then its end fragment cut down to
+			// 0..2 bytes (or nothing at all); what follows is the next round's first frame - itself a fragmentation
+			// unit in every second round
+			vid(fuS)
+			if n := rng.Intn(4); n < 3 { // 0..2 bytes of the end fragment; 3: it never arrives
+				vid(fuE[:n])
+			}
 		case "single-truncate-every":
 			every(single)
 		case "flip-every":
@@ -456,8 +481,18 @@ func (st *strm) round(r int, count bool, hls bool) {
 		}
 	}
 	for k := 0; k < 3; k++ {
-		p, id := st.w.video(k == 0, ts+uint32(k)*3000)
-		st.write(p)
+		var id string
+		if (r+k)%2 == 0 { // every second frame travels as a fragmentation unit: in even rounds the key frame does
+			var ps []*rtp.Packet
+			ps, id = st.w.videoFU(k == 0, ts+uint32(k)*3000)
+			for _, p := range ps {
+				st.write(p)
+			}
+		} else {
+			var p *rtp.Packet
+			p, id = st.w.video(k == 0, ts+uint32(k)*3000)
+			st.write(p)
+		}
 		if count {
 			st.good.rtpIDs = append(st.good.rtpIDs, id)
 			st.good.frameIDs = append(st.good.frameIDs, id)
